@@ -5,6 +5,7 @@ Core Lean only.
 -/
 import Mahotas.Model.C19Tas
 import Mahotas.Proofs.C19Cooc
+import Mahotas.Model.Border
 namespace Mahotas.C19Tas
 open Mahotas
 
@@ -203,5 +204,34 @@ theorem tasCount_not (s : List Nat) (b : List Int → Bool) (N k : Nat)
   rw [hN] at h
   cases hb : b p <;> simp [hb]
   omega
+
+/-- for the window offsets `−1, 0, 1` the ad-hoc `reflect1` is the shared transliteration of `fix_offset(ExtendReflect)` -/
+theorem reflect1_eq_fixOffset (n : Nat) (hn : 1 ≤ n) (i : Int) (h0 : -1 ≤ i) (h1 : i ≤ n) :
+    fixOffset .reflect i n = some (reflect1 n i) := by
+  unfold fixOffset reflect1
+  by_cases hneg : i < 0
+  · have hi : i = -1 := by omega
+    subst hi
+    simp only [show (-1 : Int) < 0 by decide, if_true]
+    by_cases hl : (n : Int) ≤ 1
+    · simp [hl]
+    · simp only [hl, if_false]
+      have h2 : ¬ ((-1 : Int) < -(2 * (n : Int))) := by omega
+      simp only [h2, if_false]
+      have h3 : ¬ ((-1 : Int) < -(n : Int)) := by omega
+      simp [h3]
+  · simp only [hneg, if_false]
+    by_cases hge : i ≥ (n : Int)
+    · have hi : i = n := by omega
+      subst hi
+      simp only [ge_iff_le, Int.le_refl, if_true]
+      by_cases hl : (n : Int) ≤ 1
+      · have : (n : Int) = 1 := by omega
+        simp [this]
+      · simp only [hl, if_false]
+        have ht : (n : Int).tdiv (2 * (n : Int)) = 0 := Int.tdiv_eq_zero_of_lt (by omega) (by omega)
+        simp only [ht, Int.mul_zero, Int.sub_zero, Int.le_refl, if_true]
+        congr 1; omega
+    · simp [hge]
 
 end Mahotas.C19Tas
